@@ -2,6 +2,7 @@ import ExponaxModel.Properties.C14
 import ExponaxModel.Proofs.RepeatedPhysicalNonlin
 import ExponaxModel.Proofs.RepeatedPhysicalWavenumber
 import ExponaxModel.Proofs.RepeatedPhysicalCounter
+import ExponaxModel.Proofs.RepeatedPhysicalEtdrkCoef
 /-
 C14 (continued) — `RepeatedStepper(stepper, n)(u) = ifft(step_fourier^n(fft u))` against the naive loop
 `(ifft ∘ step_fourier ∘ fft)^n (u)` between the MODEL transforms, general D ≥ 1, N ≥ 1.  They agree exactly when
@@ -151,6 +152,212 @@ open Exponax.C2R in
 theorem C14_nyquist_counterexample_hypothesis_fails :
     ¬∀ (C : Array ℂ), Realisable 1 2 C → Realisable 1 2 (FnyqI C) :=
   @Exponax.C2R.FnyqI_not_preserving
+
+
+
+/-! ### instantiated on the REGENERATED ETDRK step formulas (`Gen.Etdrk.E0step … E4step` with the regenerated `exp_term`,
+half-step factor and all fourteen contour coefficients): if the linear symbol is Hermitian on the self-conjugate columns
+(`HermSymbol`; on odd grids: λ(−k) = conj λ(k)), `dt` and the contour radius are real and the nonlinear term is
+pseudo-spectral (`m ⊙ rfftn(g(irfftn û))`, `g` real on real states, `m` a Hermitian multiplier such as the dealiasing
+mask), then every stored coefficient array is a Hermitian symbol again (the conjugate of the contour mean over the roots of
+unity is the mean over the conjugate roots — the same set), every ETDRK-p step (p = 0..4) maps realisable spectra to
+realisable spectra, and the repeated stepper IS the physical-space loop, for every n and every real state -/
+
+open Exponax.C2R in
+theorem C14_realisable_of_tabulated_spectrum :
+    ∀ (D N : ℕ),
+      0 < D → 0 < N → ∀ (f : ℕ → ℂ), Realisable D N (Transform.tab (Layout.numModes D N) f) ↔ HermSpec D N f :=
+  @Exponax.C2R.realisable_tab_iff
+
+open Exponax.C2R in
+theorem C14_every_etdrk_step_preserves_hermitian_consistency :
+    ∀ (D N : ℕ) (e eh a1 a2 a3 a4 a5 a6 : ℕ → ℂ),
+      HermSymbol D N e →
+        HermSymbol D N eh →
+          HermSymbol D N a1 →
+            HermSymbol D N a2 →
+              HermSymbol D N a3 →
+                HermSymbol D N a4 →
+                  HermSymbol D N a5 →
+                    HermSymbol D N a6 →
+                      ∀ (𝒩 : (ℕ → ℂ) → ℕ → ℂ),
+                        (∀ (f : ℕ → ℂ), HermSpec D N f → HermSpec D N (𝒩 f)) →
+                          ∀ (u : ℕ → ℂ),
+                            HermSpec D N u →
+                              HermSpec D N (Gen.Etdrk.E0step e u) ∧
+                                HermSpec D N (Gen.Etdrk.E1step e a1 𝒩 u) ∧
+                                  HermSpec D N (Gen.Etdrk.E2step e a1 a2 𝒩 u) ∧
+                                    HermSpec D N (Gen.Etdrk.E3step e eh a1 a2 a3 a4 a5 𝒩 u) ∧
+                                      HermSpec D N (Gen.Etdrk.E4step e eh a1 a2 a3 a4 a5 a6 𝒩 u) :=
+  @Exponax.C2R.etdrk_steps_hermSpec
+
+open Exponax.C2R in
+theorem C14_etdrk4_step_preserves_realisable :
+    ∀ (D N : ℕ),
+      0 < D →
+        0 < N →
+          ∀ (e eh a1 a2 a3 a4 a5 a6 : ℕ → ℂ),
+            HermSymbol D N e →
+              HermSymbol D N eh →
+                HermSymbol D N a1 →
+                  HermSymbol D N a2 →
+                    HermSymbol D N a3 →
+                      HermSymbol D N a4 →
+                        HermSymbol D N a5 →
+                          HermSymbol D N a6 →
+                            ∀ (𝒩 : (ℕ → ℂ) → ℕ → ℂ),
+                              (∀ (f : ℕ → ℂ),
+                                  Realisable D N (Transform.tab (Layout.numModes D N) f) →
+                                    Realisable D N (Transform.tab (Layout.numModes D N) (𝒩 f))) →
+                                ∀ (u : ℕ → ℂ),
+                                  Realisable D N (Transform.tab (Layout.numModes D N) u) →
+                                    Realisable D N
+                                      (Transform.tab (Layout.numModes D N) (Gen.Etdrk.E4step e eh a1 a2 a3 a4 a5 a6 𝒩 u)) :=
+  @Exponax.C2R.E4step_preserves_realisable
+
+open Exponax.C2R in
+theorem C14_pseudo_spectral_term_preserves_realisable :
+    ∀ (D N : ℕ),
+      0 < D →
+        0 < N →
+          ∀ (m : ℕ → ℂ),
+            HermSymbol D N m →
+              ∀ (g : Array ℂ → Array ℂ),
+                (∀ (v : Array ℂ), RealState D N v → ∀ j < N ^ D, ((g v).getD j 0).im = 0) →
+                  ∀ (f : ℕ → ℂ),
+                    Realisable D N (Transform.tab (Layout.numModes D N) f) →
+                      Realisable D N (Transform.tab (Layout.numModes D N) (pseudoNl D N m g f)) :=
+  @Exponax.C2R.pseudoNl_preserves_realisable
+
+open Exponax.C2R in
+theorem C14_exponential_of_hermitian_symbol :
+    ∀ (D N : ℕ) (dt : ℝ) (lam : ℕ → ℂ),
+      HermSymbol D N lam → HermSymbol D N fun h ↦ Gen.Etdrk.exp_term (↑dt) (lam h) :=
+  @Exponax.C2R.hermSymbol_exp_term
+
+open Exponax.C2R in
+theorem C14_contour_coefficients_of_hermitian_symbol :
+    ∀ (D N : ℕ) (dt r : ℝ) (M : ℕ) (lam : ℕ → ℂ),
+      HermSymbol D N lam →
+        (HermSymbol D N fun h ↦ Gen.Etdrk.E1_coef_1 (↑dt) (lam h) M ↑r) ∧
+          (HermSymbol D N fun h ↦ Gen.Etdrk.E2_coef_1 (↑dt) (lam h) M ↑r) ∧
+            (HermSymbol D N fun h ↦ Gen.Etdrk.E2_coef_2 (↑dt) (lam h) M ↑r) ∧
+              (HermSymbol D N fun h ↦ Gen.Etdrk.E3_coef_1 (↑dt) (lam h) M ↑r) ∧
+                (HermSymbol D N fun h ↦ Gen.Etdrk.E3_coef_2 (↑dt) (lam h) M ↑r) ∧
+                  (HermSymbol D N fun h ↦ Gen.Etdrk.E3_coef_3 (↑dt) (lam h) M ↑r) ∧
+                    (HermSymbol D N fun h ↦ Gen.Etdrk.E3_coef_4 (↑dt) (lam h) M ↑r) ∧
+                      (HermSymbol D N fun h ↦ Gen.Etdrk.E3_coef_5 (↑dt) (lam h) M ↑r) ∧
+                        (HermSymbol D N fun h ↦ Gen.Etdrk.E4_coef_1 (↑dt) (lam h) M ↑r) ∧
+                          (HermSymbol D N fun h ↦ Gen.Etdrk.E4_coef_2 (↑dt) (lam h) M ↑r) ∧
+                            (HermSymbol D N fun h ↦ Gen.Etdrk.E4_coef_3 (↑dt) (lam h) M ↑r) ∧
+                              (HermSymbol D N fun h ↦ Gen.Etdrk.E4_coef_4 (↑dt) (lam h) M ↑r) ∧
+                                (HermSymbol D N fun h ↦ Gen.Etdrk.E4_coef_5 (↑dt) (lam h) M ↑r) ∧
+                                  HermSymbol D N fun h ↦ Gen.Etdrk.E4_coef_6 (↑dt) (lam h) M ↑r :=
+  @Exponax.C2R.hermSymbol_etdrk_coefs
+
+open Exponax.C2R in
+theorem C14_regenerated_etdrk_steps_preserve_realisable :
+    ∀ (D N : ℕ),
+      0 < D →
+        0 < N →
+          ∀ (dt r : ℝ) (M : ℕ) (lam : ℕ → ℂ),
+            HermSymbol D N lam →
+              ∀ (𝒩 : (ℕ → ℂ) → ℕ → ℂ),
+                (∀ (f : ℕ → ℂ),
+                    Realisable D N (Transform.tab (Layout.numModes D N) f) →
+                      Realisable D N (Transform.tab (Layout.numModes D N) (𝒩 f))) →
+                  ∀ (u : ℕ → ℂ),
+                    Realisable D N (Transform.tab (Layout.numModes D N) u) →
+                      Realisable D N (Transform.tab (Layout.numModes D N) (etdrk0 dt lam u)) ∧
+                        Realisable D N (Transform.tab (Layout.numModes D N) (etdrk1 dt r M lam 𝒩 u)) ∧
+                          Realisable D N (Transform.tab (Layout.numModes D N) (etdrk2 dt r M lam 𝒩 u)) ∧
+                            Realisable D N (Transform.tab (Layout.numModes D N) (etdrk3 dt r M lam 𝒩 u)) ∧
+                              Realisable D N (Transform.tab (Layout.numModes D N) (etdrk4 dt r M lam 𝒩 u)) :=
+  @Exponax.C2R.etdrk_steps_preserve_realisable_of_symbol
+
+open Exponax.C2R in
+theorem C14_repeated_etdrk2_is_the_loop :
+    ∀ (D N : ℕ),
+      0 < D →
+        0 < N →
+          ∀ (dt r : ℝ) (M : ℕ) (lam : ℕ → ℂ),
+            HermSymbol D N lam →
+              ∀ (m : ℕ → ℂ),
+                HermSymbol D N m →
+                  ∀ (g : Array ℂ → Array ℂ),
+                    (∀ (v : Array ℂ), RealState D N v → ∀ j < N ^ D, ((g v).getD j 0).im = 0) →
+                      ∀ (u : Array ℂ),
+                        RealState D N u →
+                          ∀ (n : ℕ),
+                            Loops.repeatN
+                                (fun v ↦
+                                  Transform.irfftnM D N
+                                    (liftStep D N (etdrk2 dt r M lam (pseudoNl D N m g)) (Transform.rfftnM D N v)))
+                                n u =
+                              Transform.irfftnM D N
+                                (Loops.repeatedStepFourier (liftStep D N (etdrk2 dt r M lam (pseudoNl D N m g))) n
+                                  (Transform.rfftnM D N u)) :=
+  @Exponax.C2R.repeatedStepper_eq_loop_etdrk2
+
+open Exponax.C2R in
+theorem C14_repeated_etdrk4_is_the_loop :
+    ∀ (D N : ℕ),
+      0 < D →
+        0 < N →
+          ∀ (dt r : ℝ) (M : ℕ) (lam : ℕ → ℂ),
+            HermSymbol D N lam →
+              ∀ (m : ℕ → ℂ),
+                HermSymbol D N m →
+                  ∀ (g : Array ℂ → Array ℂ),
+                    (∀ (v : Array ℂ), RealState D N v → ∀ j < N ^ D, ((g v).getD j 0).im = 0) →
+                      ∀ (u : Array ℂ),
+                        RealState D N u →
+                          ∀ (n : ℕ),
+                            Loops.repeatN
+                                (fun v ↦
+                                  Transform.irfftnM D N
+                                    (liftStep D N (etdrk4 dt r M lam (pseudoNl D N m g)) (Transform.rfftnM D N v)))
+                                n u =
+                              Transform.irfftnM D N
+                                (Loops.repeatedStepFourier (liftStep D N (etdrk4 dt r M lam (pseudoNl D N m g))) n
+                                  (Transform.rfftnM D N u)) :=
+  @Exponax.C2R.repeatedStepper_eq_loop_etdrk4
+
+open Exponax.C2R in
+theorem C14_repeated_etdrk4_is_the_loop_odd_grid :
+    ∀ (D N : ℕ),
+      0 < D →
+        N % 2 = 1 →
+          ∀ (dt r : ℝ) (M : ℕ) (ℓ : List ℤ → ℂ),
+            (∀ (k : List ℤ), ℓ (List.map (fun x ↦ -x) k) = (starRingEnd ℂ) (ℓ k)) →
+              ∀ (m : ℕ → ℂ),
+                HermSymbol D N m →
+                  ∀ (g : Array ℂ → Array ℂ),
+                    (∀ (v : Array ℂ), RealState D N v → ∀ j < N ^ D, ((g v).getD j 0).im = 0) →
+                      ∀ (u : Array ℂ),
+                        RealState D N u →
+                          ∀ (n : ℕ),
+                            Loops.repeatN
+                                (fun v ↦
+                                  Transform.irfftnM D N
+                                    (liftStep D N (etdrk4 dt r M (fun h ↦ ℓ (Layout.wnFlat D N h)) (pseudoNl D N m g))
+                                      (Transform.rfftnM D N v)))
+                                n u =
+                              Transform.irfftnM D N
+                                (Loops.repeatedStepFourier
+                                  (liftStep D N (etdrk4 dt r M (fun h ↦ ℓ (Layout.wnFlat D N h)) (pseudoNl D N m g))) n
+                                  (Transform.rfftnM D N u)) :=
+  @Exponax.C2R.odd_grid_repeatedStepper_eq_loop_etdrk4
+
+open Exponax.C2R in
+theorem C14_odd_grid_exponential_symbol :
+    ∀ (D N : ℕ),
+      0 < D →
+        N % 2 = 1 →
+          ∀ (dt : ℝ) (ℓ : List ℤ → ℂ),
+            (∀ (k : List ℤ), ℓ (List.map (fun x ↦ -x) k) = (starRingEnd ℂ) (ℓ k)) →
+              HermSymbol D N fun h ↦ Gen.Etdrk.exp_term (↑dt) (ℓ (Layout.wnFlat D N h)) :=
+  @Exponax.C2R.odd_grid_hermSymbol_exp_term
 
 
 end Exponax
